@@ -6,6 +6,7 @@ import TxdbusModel.Proofs.Msg.GeneralMsg
 import TxdbusModel.Proofs.Msg.GeneralForeign
 import TxdbusModel.Proofs.Msg.GeneralShape
 import TxdbusModel.Proofs.Msg.Forward
+import TxdbusModel.Proofs.Msg.ForwardOk
 import TxdbusModel.Proofs.Msg.Again
 /-!
 # C03 - Every constructible message serialises well-formed and parses back intact
@@ -739,7 +740,8 @@ theorem headerCode_eq_general_encode (le : Bool) (fuel : Nat) (v0 v1 v2 v3 v4 v5
      | .error e => .error e) = marshalHeader Gen.Message.align le v0 v1 v2 v3 v4 v5 hs :=
   marshalHeader_eq_general Gen.Message.align pad_agree gen_alignOK le fuel v0 v1 v2 v3 v4 v5 hs hne
 
-/-- **When HeaderCode's decoder fails with `PyErr.other`, the general decoder LEAVES THE FRAGMENT** (with any other exception
+/-- **When HeaderCode's decoder fails with `PyErr.other`, the general decoder LEAVES THE FRAGMENT** (necessary condition on
+the bytes; the form anchored to the decoder's walk is `headerCode_outside_fragment_anchored` below) (with any other exception
 it fails with the same exception: `headerCode_eq_general_decode`): some header field's variant, at some offset of the
 message, carries a signature that starts with a type code of `dbus_types` and is not exactly one basic type code (a
 container, a variant, or more than one type) - the general decoder goes on into that value.  Never an exhausted loop budget. -/
@@ -748,6 +750,15 @@ theorem headerCode_outside_fragment (le : Bool) (data : Bytes) (fds : Option (Li
     ∃ off nsig ch more, unmarshalSignature le (rdAt data off) = .ok (nsig, ch :: more) ∧ Gen.Message.align ch ≠ 0 ∧
       (more ≠ [] ∨ Basic.ofCode? ch = none) :=
   unmarshalHeader_other Gen.Message.align gen_alignOK le data fds h
+
+/-- The ANCHORED form (review 3, 1.3): `headerCode_outside_fragment` states a NECESSARY condition on the bytes (`∃ off`: such a
+signature stands somewhere); this statement ties it to the decoder's own walk - at that offset HeaderCode's `unmarshal_variant`
+itself answers `other`, i.e. the walk over the field array reached that variant (everything before it decoded, the loop budget
+`rest.length + 1` was not exhausted: `unmarshalItems_other`). -/
+theorem headerCode_outside_fragment_anchored (le : Bool) (data : Bytes) (fds : Option (List PyVal))
+    (h : unmarshalHeader Gen.Message.align le data fds = .error .other) :
+    ∃ off, unmarshalVariant Gen.Message.align le (rdAt data off) fds = .error .other :=
+  unmarshalHeader_other_anchored Gen.Message.align gen_alignOK le data fds h
 
 /-- Whatever the general decoder returns for the header signature - on ANY byte string, inside or outside the fragment -
 has the shape `parseMessage` reads (`hval[1]`, `hval[2]`, `hval[5]`, `for code, v in hval[6]`): `headerOfPy` never fails,
@@ -944,6 +955,41 @@ example :
   · exact ⟨_, rfl⟩
   · exact ⟨_, rfl⟩
 
+/-- `parse_foreign_containers` FULLY instantiated (review 3, 1.4): every premise discharged on that message - the 40 header
+bytes are the specification encoding (`henc`, by evaluation), `py` = C02's decoding of each field, `known` = [REPLY_SERIAL],
+`extra` = [field 20 holding `[7]`], no signature field - and the conclusion read off: the general-codec parse returns a
+method return with serial 7, `reply_serial = 3`, every other attribute None, the header bytes kept. -/
+example :
+    ∃ m' : Msg Bytes,
+      parseMessageG Gen.Message.tables rawCodec 5
+        [66, 2, 0, 1, 0, 0, 0, 0, 0, 0, 0, 7, 0, 0, 0, 24, 5, 1, 117, 0, 0, 0, 0, 3,
+         20, 2, 97, 105, 0, 0, 0, 0, 0, 0, 0, 4, 0, 0, 0, 7] none = .ok m' ∧
+      m'.cls = .methodReturn ∧ m'.serial = 7 ∧ m'.expectReply = true ∧
+      (m'.attrs .replySerial).asInt? = some 3 ∧ isNone (m'.attrs .path) = true ∧ isNone (m'.attrs .signature) = true ∧
+      m'.rawHeader.length = 40 ∧ m'.rawBody = [] := by
+  let fields : List GField := [(5, .basic .u, .int 3), (20, .array (.basic .i), .array [.int 7])]
+  let py : GField → PyVal := fun f => (Code.fromSpec none f.2.2 f.2.1).getD .none
+  let hdr : Bytes := [66, 2, 0, 1, 0, 0, 0, 0, 0, 0, 0, 7, 0, 0, 0, 24, 5, 1, 117, 0, 0, 0, 0, 3,
+         20, 2, 97, 105, 0, 0, 0, 0, 0, 0, 0, 4, 0, 0, 0, 7]
+  have henc : Spec.encodeAll Code.genAlign .big gHeaderTys
+      (gHeaderVals (Spec.endianByte .big).toNat (Gen.Message.tables.messageType .methodReturn) 0 ([] : Bytes).length 7 fields) 0
+        = some hdr := by decide +kernel
+  have hpy : ∀ f ∈ fields, Code.fromSpec none f.2.2 f.2.1 = some (py f) := by
+    intro f hf
+    simp only [fields, List.mem_cons, List.not_mem_nil, or_false] at hf
+    rcases hf with rfl | rfl <;> rfl
+  have hperm : (fields.map fun f => (f.1, py f)).Perm
+      ([(5, PyVal.int .plain 3)] ++ [(20, PyVal.list [.int .plain 7])]) := List.Perm.refl _
+  obtain ⟨m', q1, q2, q3, q4, _, _, q7, q8, _, q10, _⟩ :=
+    parse_foreign_containers rawCodec .big .methodReturn 0 7 fields hdr [] none py 5 henc hpy (by decide)
+      [(5, .int .plain 3)] [(20, .list [.int .plain 7])] hperm (by decide) (by decide) ([] : Bytes) (Or.inl rfl)
+  have hpad : zeros (padLen 8 hdr.length) = [] := by decide
+  rw [hpad] at q1
+  refine ⟨m', by simpa [hdr] using q1, q2, q3, by rw [q4]; decide, ?_, ?_, ?_, by rw [q8]; rfl, q10⟩
+  · rw [q7 .replySerial]; rfl
+  · rw [q7 .path]; rfl
+  · rw [q7 .signature]; rfl
+
 /-! ### Gap (c): the forwarding call `_marshal(False, rawBody=…)` -/
 
 /-- The general-codec rendering of the forwarding call agrees with the specialised one unless the latter says "outside
@@ -987,8 +1033,9 @@ theorem sender_in_every_table (cls : MsgClass) : ∃ ent ∈ Gen.Message.tables.
   cases cls <;> decide
 
 /-- **What the bus does** (bus.py:82-89: `msg.sender = uniqueName; msg.endian = raw[0]; msg._marshal(False,
-rawBody=msg.rawBody)`) to a message object `m` as above: the re-marshalled message parses to the same class, serial,
-flags, body and header attributes EXCEPT `sender`, which is the name the bus set. -/
+rawBody=msg.rawBody)`) to a message object `m` as above: IF THE CALL RETURNS (`h`; when it does: `forward_succeeds`) the
+re-marshalled message parses to the same class, serial, flags, body and header attributes EXCEPT `sender`, which is the name the
+bus set.  (About the specialised model `forward` / `parseMessage`; the general-codec rendering: `forward_parse_general`.) -/
 theorem forward_parse {β : Type} (C : BodyCodec β) (maxLen : Nat) (m m2 : Msg β) (endian : Nat) (sender : List Char)
     (hshape : ∀ a, AttrFwd a (m.attrs a))
     (hin : ∀ a, a ≠ .sender → m.attrs a ≠ .none → ∃ ent ∈ Gen.Message.tables.headerAttrs m.cls, ent.1 = a)
@@ -1029,7 +1076,9 @@ theorem forward_parse {β : Type} (C : BodyCodec β) (maxLen : Nat) (m m2 : Msg 
     · simp [setAttr, ha]
   · rw [r8, hsigattr]
 
-/-- **Received, forwarded, received again** (`parse_foreign` ∘ `forward_parse`).  Any valid message of the specification
+/-- **Received, forwarded, received again** (`parse_foreign` ∘ `forward_parse`) - CONDITIONAL ON THE FORWARDING CALL RETURNING
+(`hf`; it raises e.g. when adding SENDER pushes a message over `_maxMsgLen`; sufficient conditions: `forward_succeeds`).
+Any valid message of the specification
 (`parse_foreign`'s premises: either byte order, any field order, any unknown fields of basic types) all of whose known
 fields - SENDER aside - are in the `_headerAttrs` table of its class: the bus parses its bytes, sets `sender`, copies the
 byte-order mark, re-marshals with the raw body; the destination then parses the same class, serial, flags, `otherFlags`,
@@ -1060,6 +1109,99 @@ theorem forward_foreign {β : Type} (C : BodyCodec β) (maxLen : Nat)
       m3.body = m.body ∧ m3.rawBody = w.body ∧ m2.raw.length ≤ maxLen :=
   forward_foreign_gen Gen.Message.tables tables_ok C maxLen w hw cls hcls known extra hperm hextra hknown fds hfd hinTab
     (sender_in_every_table cls) decoded hC sender m m2 hp hf
+
+/-- **When the bus's forwarding call returns** (review 3, 1.1: `forward_parse` / `forward_foreign` are conditional on it).
+Sufficient: every attribute other than `sender` holds None or a value its marshaller accepts (`AttrSendOK`: a str without NUL
+whose UTF-8 length fits 32 bits; `path` accepted by `validateObjectPath`; `signature` ASCII of at most 255 characters;
+`reply_serial` an int in 0 .. 2^32-1 - an int outside that range raises struct.error, a non-path str in `path`
+MarshallingError); the name the bus sets has no NUL; byte-order mark `l` / `B`; `otherFlags` one byte, the serial 32 bits;
+and the RE-MARSHALLED message - with the SENDER field the bus adds, which can push a message of nearly `_maxMsgLen` over the
+limit - is at most `maxLen ≤ 2^27` bytes long.  Then `forward` returns a message (to which `forward_parse` applies). -/
+theorem forward_succeeds {β : Type} (maxLen : Nat) (hmax : maxLen ≤ Spec.maxMessage) (m : Msg β) (endian : Nat)
+    (sender : List Char)
+    (hsend : ∀ a, a ≠ .sender → AttrSendOK a (m.attrs a))
+    (hsnd : sender.contains nul = false ∧ (utf8Encode sender).length < 4294967296)
+    (hend : endian = 108 ∨ endian = 66) (hof : m.otherFlags < 256) (hser : m.serial < 4294967296)
+    (hlen : ∀ fs, specFieldsOf (setAttr m.attrs .sender (.str .plain sender)) (Gen.Message.tables.headerAttrs m.cls) = some fs →
+      (Spec.encodeMsg (fwdSpec Gen.Message.tables
+        { m with attrs := setAttr m.attrs .sender (.str .plain sender) } endian fs m.rawBody)).length ≤ maxLen) :
+    ∃ m2, forward Gen.Message.tables maxLen m endian sender = .ok m2 := by
+  unfold forward
+  have hall : ∀ a, AttrSendOK a (({ m with attrs := setAttr m.attrs .sender (.str .plain sender) } : Msg β).attrs a) := by
+    intro a
+    by_cases ha : a = .sender
+    · subst ha
+      simp only [setAttr, if_true]
+      exact Or.inr ⟨sender, rfl, hsnd.1, hsnd.2⟩
+    · simp only [setAttr, ha, if_false]
+      exact hsend a ha
+  exact remarshal_succeeds Gen.Message.tables tables_ok maxLen hmax
+    ({ m with attrs := setAttr m.attrs .sender (.str .plain sender) } : Msg β) endian m.rawBody hall hend hof hser hlen
+
+/-- The header attributes `parseMessage` leaves for a method return with REPLY_SERIAL 3 and DESTINATION ':1.2'. -/
+def exampleReturnAttrs : Attr → PyVal
+  | .replySerial => .int .plain 3
+  | .destination => .str .plain ":1.2".toList
+  | _ => .none
+
+def exampleReturn : Msg Bytes :=
+  { cls := .methodReturn, expectReply := true, autoStart := true, attrs := exampleReturnAttrs, body := none, serial := 7,
+    rawHeader := [], rawPadding := [], rawBody := [] }
+
+/-- The premises of `forward_succeeds` on a method return object with REPLY_SERIAL 3 and DESTINATION ':1.2' (what
+`parseMessage` leaves for such a message), forwarded under the name ':1.9': the re-marshalled message has 56 bytes. -/
+example :
+    let m : Msg Bytes := exampleReturn
+    (∀ a, a ≠ .sender → AttrSendOK a (m.attrs a)) ∧
+    (∀ fs, specFieldsOf (setAttr m.attrs .sender (.str .plain ":1.9".toList)) (Gen.Message.tables.headerAttrs m.cls) = some fs →
+      (Spec.encodeMsg (fwdSpec Gen.Message.tables
+        { m with attrs := setAttr m.attrs .sender (.str .plain ":1.9".toList) } 66 fs m.rawBody)).length ≤ 134217728) := by
+  intro m
+  constructor
+  · intro a _
+    cases a <;> first
+      | exact Or.inl rfl
+      | exact Or.inr ⟨_, _, rfl, by decide, by decide⟩
+      | exact Or.inr ⟨_, rfl, by decide, by decide⟩
+  · intro fs hfs
+    have hfs' : specFieldsOf (setAttr m.attrs .sender (.str .plain ":1.9".toList)) (Gen.Message.tables.headerAttrs m.cls) =
+        some [(5, .num .u 3), (6, .text .s ":1.2".toList), (7, .text .s ":1.9".toList)] := by decide +kernel
+    rw [hfs'] at hfs
+    cases hfs
+    decide +kernel
+
+/-- **`forward_parse` about the general codec** (review 3, 1.2): the bus's step run through the model that txdbus's code
+corresponds to on BOTH sides - `forwardG` (`_marshal(False, rawBody=…)` with the header through `Code.marshal`) and
+`parseMessageG` (header through `Code.unmarshal`).  Same premises, same conclusion.  (`AttrFwd` keeps the header list inside the
+encoder's fragment: `remarshal_ne_other_of_fwd`, `headerCode_encode_fragment`; then `remarshal_general_eq`, `parse_general_of_ok`.) -/
+theorem forward_parse_general {β : Type} (C : BodyCodec β) (fuel fuel' : Nat) (maxLen : Nat) (m m2 : Msg β) (endian : Nat)
+    (sender : List Char)
+    (hshape : ∀ a, AttrFwd a (m.attrs a))
+    (hin : ∀ a, a ≠ .sender → m.attrs a ≠ .none → ∃ ent ∈ Gen.Message.tables.headerAttrs m.cls, ent.1 = a)
+    (hend : endian = 108 ∨ endian = 66)
+    (hnul : ∀ s, m.attrs .signature = .str .plain s → s.contains nul = false)
+    (h : forwardG Gen.Message.tables (fuel + 4) maxLen m endian sender = .ok m2)
+    (fds : Option (List PyVal)) (decoded : β)
+    (hC : ∀ sg, m.attrs .signature = .str .plain sg → sg ≠ [] →
+        C.unmarshal sg m.rawBody (endian == 108) fds = .ok decoded) :
+    ∃ m3 : Msg β, parseMessageG Gen.Message.tables C (fuel' + 4) m2.raw fds = .ok m3 ∧
+      m3.cls = m.cls ∧ m3.serial = m.serial ∧ m3.expectReply = m.expectReply ∧ m3.autoStart = m.autoStart ∧
+      m3.otherFlags = m.otherFlags / 4 * 4 ∧
+      (∀ a, m3.attrs a = if a = .sender then .str .plain sender else plain (m.attrs a)) ∧
+      m3.body = (if truthy (m.attrs .signature) then some decoded else none) ∧ m3.rawBody = m.rawBody ∧
+      m2.raw.length ≤ maxLen := by
+  have hshape' : ∀ a, AttrFwd a (({ m with attrs := setAttr m.attrs .sender (.str .plain sender) } : Msg β).attrs a) := by
+    intro a
+    by_cases ha : a = .sender
+    · subst ha; simp only [setAttr, if_true]; exact Or.inr ⟨sender, rfl⟩
+    · simp only [setAttr, ha, if_false]; exact hshape a
+  have hf : forward Gen.Message.tables maxLen m endian sender = .ok m2 := by
+    unfold forwardG at h
+    unfold forward
+    rw [← remarshalG_eq_of_fwd Gen.Message.tables tables_ok pad_agree fuel maxLen _ endian m.rawBody hshape']
+    exact h
+  obtain ⟨m3, r1, rest⟩ := forward_parse C maxLen m m2 endian sender hshape hin hend hnul hf fds decoded hC
+  exact ⟨m3, parse_general_of_ok C fuel' m2.raw fds m3 r1, rest⟩
 
 /-- `hinTab` of `forward_foreign` on the known fields of the foreign method return of the example above
 (REPLY_SERIAL, DESTINATION), next to `parse_foreign`'s premises (shown satisfiable there). -/
@@ -1264,6 +1406,7 @@ end Txdbus.Msg
 #print axioms Txdbus.Msg.headerCode_eq_general_encode
 #print axioms Txdbus.Msg.headerCode_encode_fragment
 #print axioms Txdbus.Msg.headerCode_outside_fragment
+#print axioms Txdbus.Msg.headerCode_outside_fragment_anchored
 #print axioms Txdbus.Msg.general_result_shape
 #print axioms Txdbus.Msg.construct_general_eq
 #print axioms Txdbus.Msg.parse_general_eq
@@ -1277,6 +1420,8 @@ end Txdbus.Msg
 #print axioms Txdbus.Msg.remarshal_parse
 #print axioms Txdbus.Msg.sender_in_every_table
 #print axioms Txdbus.Msg.forward_parse
+#print axioms Txdbus.Msg.forward_parse_general
+#print axioms Txdbus.Msg.forward_succeeds
 #print axioms Txdbus.Msg.forward_foreign
 #print axioms Txdbus.Msg.forward_drops_field_outside_table
 #print axioms Txdbus.Msg.marshal_again_same
